@@ -1,6 +1,7 @@
 # C19 -- user precision is preserved: only the Gamma draw narrows to f64.
 from common import *
-import graphs as G, samplecorr as SC
+import graphs as G, samplecorr as SC, exact as X
+from fractions import Fraction as Fr
 
 
 def outputs(fi, o):
@@ -32,7 +33,7 @@ def outputs(fi, o):
 
 def run(rep, rng, tier, replay=None):
     n = 40 if tier == "quick" else 300
-    cases, plus, minus = [], [], []
+    cases, plus, minus, plus2, minus2 = [], [], [], [], []
     h = 2.0**-20
     for i in range(n):
         r = rng.fork()
@@ -55,7 +56,7 @@ def run(rep, rng, tier, replay=None):
                 ed["mass_d"] = f2b(r.choice([-1.0, 1.0]))
             ed["shift_d"] = [f2b(r.choice([-1.0, 0.0, 1.0])) for _ in ed["shift"]]
         cases.append(c)
-        for sign, lst in ((+1, plus), (-1, minus)):
+        for sign, lst in ((+1, plus), (-1, minus), (+2, plus2), (-2, minus2)):
             c2 = json.loads(json.dumps(c))
             c2["point"] = [f2b(p + sign * h * d) for p, d in zip(pt, pd)]
             for ed in c2["edge_data"]:
@@ -66,8 +67,12 @@ def run(rep, rng, tier, replay=None):
     res = SC.run_samples("C19", cases)
     rp = harness("sample", dict(cases=plus), timeout=600)["results"]
     rm = harness("sample", dict(cases=minus), timeout=600)["results"]
+    rp2 = harness("sample", dict(cases=plus2), timeout=600)["results"]
+    rm2 = harness("sample", dict(cases=minus2), timeout=600)["results"]
     skipped = 0
-    for c, x, op, om in zip(cases, res, rp, rm):
+    unreliable = 0
+    ill = 0
+    for c, x, op, om, op2, om2 in zip(cases, res, rp, rm, rp2, rm2):
         o, m = x["impl"], x["model"]
         E, L, D = len(c["edges"]), c["L"], c["D"]
         fi = SC.impl_fields(o["f64"])
@@ -94,27 +99,43 @@ def run(rep, rng, tier, replay=None):
         if stray:
             bad.append("from_f64 applied to values that are not table constants / settings / literals: %s" % stray[:3])
         # (c) the perturbation channel: dual part of every output vs a central difference of the f64 run
-        fp, fm_ = op["f64"], om["f64"]
-        if not (fp.get("ok") and fm_.get("ok")):
+        fp, fm_, fp2, fm2 = op["f64"], om["f64"], op2["f64"], om2["f64"]
+        # difference quotients of f64 runs are meaningless where V is dominated by cancellation
+        nn = SC.case_numbers(c)
+        xq = [Fr(b2f(v)) for v in m["x"]]          # debug output is off: take the parameters from the model run (bit-equal)
+        _, ratio, Lm, _, _ = X.v_poly(xq, nn["sig"], [[Fr(t) for t in sh] for sh in nn["shifts"]], [Fr(mm) for mm in nn["masses"]])
+        kap = X.cond_estimate(Lm)
+        if ratio is None or kap is None or ratio * kap > Fr(10) ** 3:
+            ill += 1
+        elif not (fp.get("ok") and fm_.get("ok") and fp2.get("ok") and fm2.get("ok")):
             skipped += 1
         else:
             a, b_, c0 = outputs(None, fp), outputs(None, fm_), outputs(None, inst)
+            a2, b2_ = outputs(None, fp2), outputs(None, fm2)
             scale = max(abs(b2f(v)) for _, v, _ in c0 if math.isfinite(b2f(v))) if c0 else 1.0
             # the sector must not have switched between the +h and -h runs
             same_sector = SC.impl_fields(fp)["x_pre"] is not None
-            for (nm, v0, d0), (_, vp, _), (_, vm, _) in zip(c0, a, b_):
+            for (nm, v0, d0), (_, vp, _), (_, vm, _), (_, vp2, _), (_, vm2, _) in zip(c0, a, b_, a2, b2_):
                 fd = (b2f(vp) - b2f(vm)) / (2 * h)
+                fd2 = (b2f(vp2) - b2f(vm2)) / (4 * h)
                 d = b2f(d0)
-                if not (math.isfinite(fd) and math.isfinite(d)):
+                if not (math.isfinite(fd) and math.isfinite(d) and math.isfinite(fd2)):
                     continue
-                tol = 2e-4 * (abs(fd) + abs(d)) + 1e-6 * max(1.0, abs(b2f(v0)))
+                # the central difference calibrates itself: |fd(h) - fd(2h)| estimates its own error
+                fd_err = abs(fd - fd2)
+                if fd_err > 1e-3 * (abs(fd) + abs(fd2)) + 1e-9:
+                    unreliable += 1
+                    continue
+                tol = 20 * fd_err + 2e-4 * (abs(fd) + abs(d)) + 1e-6 * max(1.0, abs(b2f(v0)))
                 if abs(fd - d) > tol and (abs(fd) > 1e-4 * max(1.0, abs(b2f(v0))) or abs(d) > 1e-4 * max(1.0, abs(b2f(v0)))):
                     bad.append("%s: perturbation carried %r, central difference of the f64 runs %r" % (nm, d, fd))
         if bad:
             rep.violation("property", "; ".join(bad[:3]), case=c, failing_input=True, what="a value of the user's type is narrowed to f64 outside the Gamma draw")
         rep.sample(dict(graph=c["family"], L=L, D=D, narrowed=[b2f(v) for v in tf], du=b2f(inst["u"][1]), dv=b2f(inst["v"][1])))
     rep.cov["skipped_fd_failed"] = skipped
+    rep.cov["cases_without_fd_comparison_because_kappa_times_cancellation_above_1e3"] = ill
+    rep.cov["outputs_skipped_because_the_difference_quotient_is_unreliable"] = unreliable
     rep.cov["rule"] = ("accepted connected graphs, generic shifts, debug output off, points in [0.05,0.95]^n; implementation at T = Inst: (a) the recorded to_f64 calls must be exactly "
                        "[dod, Gamma coordinate, 5.0]; (b) every from_f64 argument must be a table constant, a setting or a literal; (c) inputs carry first-order perturbations on the xi "
                        "and Gaussian coordinates, masses and shifts, and the perturbation part of u, v, jacobian, loop momenta, inverse, Cholesky factors, L, u-vectors must match a "
-                       "central difference (h=2^-20) of two f64 runs - a narrowed intermediate shows up as a perturbation that is zero or misses a term. non-trivial = L>=2 or D>=2")
+                       "central difference (h=2^-20, accepted only where the quotients at h and 2h agree to 1e-3) of f64 runs - a narrowed intermediate shows up as a perturbation that is zero or misses a term. non-trivial = L>=2 or D>=2")
